@@ -143,13 +143,52 @@ def alt_config_pass(plug, ctx, res):
                      f"{len(r2.disagreements)} disagreements")
 
 
+def replay_dispatch(plug, prop, ctx, payload):
+    """Plug-in replay where it exists and applies; otherwise (no plug-in replay, a broken-tie replay file, a replay
+    function that raises or declines with exit 2) the generic seed-based replay. A failure recorded by the
+    alt-config pass is replayed with that configuration switched on."""
+    fail = payload.get("failure") if isinstance(payload, dict) else None
+    cfg_wrapped = isinstance(fail, dict) and isinstance(fail.get("input"), dict) and \
+        set(fail["input"].keys()) == {"config", "input"}
+    restore = None
+    if cfg_wrapped:
+        payload = json.loads(json.dumps(payload))
+        payload["failure"]["input"] = fail["input"]["input"]
+        payload["_config"] = fail["input"]["config"]
+        try:
+            from netqasm.runtime import settings as S
+            old = S.get_is_using_hardware()
+            S.set_is_using_hardware(True)
+            restore = (S, old)
+        except Exception:
+            restore = None
+    try:
+        rc = None
+        if hasattr(plug, "replay") and payload.get("kind") == "failing-input":
+            try:
+                rc = plug.replay(ctx, payload)
+            except Exception:
+                traceback.print_exc()
+                print("replay: the plug-in's replay could not read this file; falling back to the seed-based replay")
+                rc = None
+        if rc not in (0, 1):
+            rc = generic_replay(plug, prop, payload)
+        return rc
+    finally:
+        if restore is not None:
+            restore[0].set_is_using_hardware(restore[1])
+
+
 def generic_replay(plug, prop, payload):
     """Replay for plug-ins without their own `replay`: every random choice of a run derives from
     (seed, property), so re-running the plug-in's streams with the recorded seed and tier on the
     current tree regenerates the recorded input; report whether the recorded failure (same
     description) or, for a broken tie, the same stream disagreement shows again.
     exit 1: reproduced, exit 0: no longer reproduces."""
-    ctx = Ctx(prop, payload.get("tier", "quick"), int(payload.get("seed", 0)))
+    if payload.get("_config"):
+        ctx = Ctx(prop, "quick", int(payload.get("seed", 0)) + 7919)
+    else:
+        ctx = Ctx(prop, payload.get("tier", "quick"), int(payload.get("seed", 0)))
     try:
         res = plug.run(ctx)
     except Exception as exc:
@@ -204,10 +243,7 @@ def main():
     if args.replay:
         with open(args.replay) as f:
             payload = json.load(f)
-        if hasattr(plug, "replay"):
-            rc = plug.replay(ctx, payload)
-        else:
-            rc = generic_replay(plug, prop, payload)
+        rc = replay_dispatch(plug, prop, ctx, payload)
         ctx.close()
         return rc
 
